@@ -387,6 +387,16 @@ func genEntries(r *Rng) []entry {
 			}
 		}
 	}
+	if r.Chance(0.05) {
+		// big chips: every contribution multiplied by a large factor (a narrower or floating intermediate would show only here)
+		k := []int64{1000003, 1 << 31, 4294967311, 1099511627}[r.Intn(4)]
+		for i := range es {
+			es[i].contrib *= k
+		}
+		for i := range levels {
+			levels[i] *= k
+		}
+	}
 	// "all numbers of players", any player indices: now and then a crowd, and indices that are sparse and large
 	if r.Chance(0.04) {
 		extra := 50 + r.Intn(30)
